@@ -98,6 +98,27 @@ pub proof fn lemma_partition(k: Seq<char>)
 '''
 
 MAPSHIM = r'''
+// A-http-30: HeaderMap::get_all(name) is a view of every value of the name, in insertion order; its iterator yields them in
+// that order (ghost sequences of what is there / still to come)
+pub open spec fn values_at(m: HMap, k: Seq<char>) -> Seq<Seq<u8>> { if m.contains_key(k) { m[k] } else { Seq::<Seq<u8>>::empty() } }
+pub struct HGetAll<'a> { pub vals: Ghost<Seq<Seq<u8>>>, pub m: &'a HeaderMap }
+pub struct HValueIter<'a> { pub rest: Ghost<Seq<Seq<u8>>>, pub m: &'a HeaderMap }
+impl HeaderMap {
+    #[verifier::external_body]
+    pub fn get_all<K: AsHeaderName>(&self, k: K) -> (r: HGetAll<'_>) ensures r.vals@ == values_at(self@, k.hname()) { unimplemented!() }
+}
+impl<'a> HGetAll<'a> {
+    #[verifier::external_body]
+    pub fn iter(&self) -> (r: HValueIter<'a>) ensures r.rest@ == self.vals@ { unimplemented!() }
+}
+impl<'a> HValueIter<'a> {
+    #[verifier::external_body]
+    pub fn next(&mut self) -> (r: Option<&'a HeaderValue>)
+        ensures
+            old(self).rest@.len() == 0 ==> r is None && final(self).rest@ == old(self).rest@,
+            old(self).rest@.len() > 0 ==> (r matches Some(v) && v@ == old(self).rest@[0] && final(self).rest@ == old(self).rest@.skip(1)),
+    { unimplemented!() }
+}
 pub mod as_metadata_key {
     use crate::*;
     // declared with its spec function; `key_name` is the header name the key denotes
@@ -113,6 +134,11 @@ pub mod as_metadata_key {
             ensures
                 self.key_ok() ==> final(map).headers@ == old(map).headers@.remove(self.key_name()),
                 !self.key_ok() ==> final(map).headers@ == old(map).headers@ && r is None;
+        // every value of the name, in order - and only for a key of this side of the partition
+        fn get_all(self, map: &MetadataMap) -> (r: Option<HGetAll<'_>>)
+            ensures
+                r is Some <==> self.key_ok(),
+                r matches Some(g) ==> g.vals@ == values_at(map.headers@, self.key_name());
     }
     pub trait AsMetadataKey<VE: ValueEncoding>: Sealed<VE> {}
 }
@@ -215,6 +241,7 @@ def build():
     open spec fn key_name(&self) -> Seq<char> { self@ }
     open spec fn key_ok(&self) -> bool { VE::valid_key(self@) }''')
     u._open_header = 'impl<VE: ValueEncoding> as_metadata_key::Sealed<VE> for &str {'
+    ga = [lambda t: t.sub_code('R12', r"GetAll<'_, HeaderValue>", "HGetAll<'_>")]
     cl_ref = {0: dict(params='e: &HeaderValue', ret='(x: &MetadataValue<VE>)', ensures=['x.inner@ == e@'])}
     cl_val = {0: dict(params='e: HeaderValue', ret='(x: MetadataValue<VE>)', ensures=['x.inner@ == e@'])}
     r3ref = [lambda t: t.sub_code('R3', r'\.map\(MetadataValue::unchecked_from_header_value_ref\)', '.map(|e| MetadataValue::unchecked_from_header_value_ref(e))')]
@@ -222,6 +249,7 @@ def build():
     W = 'impl<VE: ValueEncoding> Sealed<VE> for &str'
     u.fn(MP, 'get', within=W, nth=0, body_edits=r3ref, closures=cl_ref, display='as_metadata_key::Sealed for &str::get')
     u.fn(MP, 'remove', within=W, nth=0, body_edits=r3val, closures=cl_val, display='as_metadata_key::Sealed for &str::remove')
+    u.fn(MP, 'get_all', within=W, nth=0, sig_edits=ga, display='as_metadata_key::Sealed for &str::get_all')
     u.close('}')
     u._emit('''impl<VE: ValueEncoding> as_metadata_key::Sealed<VE> for MetadataKey<VE> {
     open spec fn key_name(&self) -> Seq<char> { self.inner@ }
@@ -230,6 +258,7 @@ def build():
     WK = 'impl<VE: ValueEncoding> Sealed<VE> for MetadataKey<VE>'
     u.fn(MP, 'get', within=WK, nth=0, body_edits=r3ref, closures=cl_ref, display='as_metadata_key::Sealed for MetadataKey::get')
     u.fn(MP, 'remove', within=WK, nth=0, body_edits=r3val, closures=cl_val, display='as_metadata_key::Sealed for MetadataKey::remove')
+    u.fn(MP, 'get_all', within=WK, nth=0, sig_edits=ga, display='as_metadata_key::Sealed for MetadataKey::get_all')
     u.close('}')
     u._emit('''impl<VE: ValueEncoding> into_metadata_key::Sealed<VE> for MetadataKey<VE> {
     open spec fn key_name(&self) -> Seq<char> { self.inner@ }
@@ -262,6 +291,7 @@ def build():
     u._open_header = "impl<'k, VE: ValueEncoding> as_metadata_key::Sealed<VE> for &'k MetadataKey<VE> {"
     u.fn(MP, 'get', within=WR, nth=0, body_edits=r3ref, closures=cl_ref, display='as_metadata_key::Sealed for &MetadataKey::get')
     u.fn(MP, 'remove', within=WR, nth=0, body_edits=r3val, closures=cl_val, display='as_metadata_key::Sealed for &MetadataKey::remove')
+    u.fn(MP, 'get_all', within=WR, nth=0, sig_edits=ga, display='as_metadata_key::Sealed for &MetadataKey::get_all')
     u.close('}')
     for ty, hdr_ty, disp in (('String', 'String', 'String'), ("&'k String", '&String', '&String')):
         lt = "<'k, VE: ValueEncoding>" if "'k" in ty else '<VE: ValueEncoding>'
@@ -272,6 +302,7 @@ def build():
         WT = 'impl<VE: ValueEncoding> Sealed<VE> for %s' % hdr_ty
         u.fn(MP, 'get', within=WT, nth=0, body_edits=r3ref, closures=cl_ref, display='as_metadata_key::Sealed for %s::get' % disp)
         u.fn(MP, 'remove', within=WT, nth=0, body_edits=r3val, closures=cl_val, display='as_metadata_key::Sealed for %s::remove' % disp)
+        u.fn(MP, 'get_all', within=WT, nth=0, sig_edits=ga, display='as_metadata_key::Sealed for %s::get_all' % disp)
         u.close('}')
 
     u._emit('impl MetadataMap {'); u._open_header = 'impl MetadataMap {'
@@ -295,6 +326,32 @@ def build():
     u.fn(MP, 'merge', within='impl MetadataMap', ensures=[Clause('M1_union_other_wins', 'final(self).headers@ == old(self).headers@.union_prefer_right(other.headers@)', ['C08', 'C02'])])
     u.close('}')
 
+    tyed = [lambda t: t.sub_code('R12', r"http::header::GetAll<'a, http::header::HeaderValue>", "HGetAll<'a>"),
+            lambda t: t.sub_code('R12', r"http::header::ValueIter<'a, http::header::HeaderValue>", "HValueIter<'a>"),
+            lambda t: t.sub_code('R12', r'PhantomData<VE>', 'core::marker::PhantomData<VE>')]
+    u.item(MP, 'struct', 'GetAll', edits=tyed, attrs=['#[verifier::reject_recursive_types(VE)]'])
+    u.item(MP, 'struct', 'ValueIter', edits=tyed, attrs=['#[verifier::reject_recursive_types(VE)]'])
+    u._emit('impl MetadataMap {'); u._open_header = 'impl MetadataMap {'
+    for name in ('get_all', 'get_all_bin'):
+        u.fn(MP, name, within='impl MetadataMap', nth=0,
+             ensures=[Clause('A1_every_value_of_the_key_in_order_and_never_across_the_partition',
+                             '(r.inner is Some <==> key.key_ok()) && (r.inner matches Some(g) ==> g.vals@ == values_at(self.headers@, key.key_name()))')])
+    u.close('}')
+    u._emit("impl<'a, VE: ValueEncoding> GetAll<'a, VE> {"); u._open_header = "impl<'a, VE: ValueEncoding> GetAll<'a, VE> {"
+    u.fn(MP, 'iter', within="impl<'a, VE: ValueEncoding> GetAll<'a, VE>", display='GetAll::iter',
+         closures={0: dict(params="inner: &HGetAll<'a>", ret="(x: HValueIter<'a>)", ensures=['x.rest@ == inner.vals@'])},
+         ensures=[Clause('A2_the_iterator_starts_with_all_the_values', '(r.inner is Some <==> self.inner is Some) && (r.inner matches Some(it) ==> it.rest@ == self.inner->Some_0.vals@)')])
+    u.close('}')
+    def ref_mut_arm(t):
+        # R31: `match self.inner { Some(ref mut inner) => .. }` is `match &mut self.inner { Some(inner) => .. }` (match ergonomics)
+        t.sub_code('R31', r'match self\.inner \{\s*Some\(ref mut inner\) =>', 'match &mut self.inner {\n            Some(inner) =>')
+    u.fn(MP, 'next', within="impl<'a, VE: ValueEncoding> Iterator for ValueIter<'a, VE>", header="impl<'a, VE: ValueEncoding> ValueIter<'a, VE> {", close=True, display='ValueIter::next',
+         sig_edits=[lambda t: t.sub_code('R9', r'Self::Item', "&'a MetadataValue<VE>")],
+         body_edits=[ref_mut_arm] + r3ref, closures=cl_ref,
+         ensures=[Clause('A3_values_come_out_in_order_unchanged',
+                         '''(old(self).inner is Some && old(self).inner->Some_0.rest@.len() > 0) ==> (r is Some && r->Some_0.inner@ == old(self).inner->Some_0.rest@[0]
+                && final(self).inner is Some && final(self).inner->Some_0.rest@ == old(self).inner->Some_0.rest@.skip(1))'''),
+                  Clause('A4_end', '(old(self).inner is None || old(self).inner->Some_0.rest@.len() == 0) ==> r is None')])
     u.item(MP, 'enum', 'KeyAndValueRef')
     u.fn(MP, 'next', within="impl<'a> Iterator for Iter<'a>", header="impl<'a> Iter<'a> {", close=True,
          sig_edits=[lambda t: t.sub_code('R9', r'Self::Item', "KeyAndValueRef<'a>")],
